@@ -1053,6 +1053,14 @@ def thread_affine(res):
     (harness/mgr_affine_driver.py)"""
     outs = core.run_driver('mgr_affine_driver.py', dict(), timeout=200)
     for r in outs:
+        if r['kind'] == 'undecodable-after':
+            for opname, o in r['ops'].items():
+                if o['outcome'][0] == 'returned' and o['size_after'] == 0:
+                    res.alarms.append(dict(signature='C20:undecodable-request-dropped-with-a-made-up-reply',
+                                           what='one connection: %s on the proxy, then %s with an argument the server cannot unpickle: the call returned %s, '
+                                                'raised nothing, and the container is still empty' % (r['first'], opname, o['outcome'][1]),
+                                           replay=dict(mode='affine', case=dict(kind='undecodable-after', first=r['first'], other_clients=0), impl=r)))
+            continue
         diff = [(a, b) for a, b in zip(r['proxy'], r['local']) if a[:2] != b[:2]]
         stuck = [x for x in r['proxy'] if x[0] == 'other-thread-acquires' and x[2] != '[True]']
         if diff or stuck:
@@ -1142,8 +1150,13 @@ def replay(path):
         return c20conc.replay_conc(c)
     if rp['mode'] == 'affine':
         bad = 0
-        for r in core.run_driver('mgr_affine_driver.py', dict(kinds=[c['kind']]), timeout=200):
-            if r['other_clients'] != c['other_clients']:
+        for r in core.run_driver('mgr_affine_driver.py', dict(kinds=[c['kind']] if c['kind'] != 'undecodable-after' else []), timeout=200):
+            if r['kind'] == 'undecodable-after':
+                if c['kind'] == 'undecodable-after' and r['first'] == c.get('first'):
+                    print(json.dumps(r['ops']))
+                    bad += sum(1 for o in r['ops'].values() if o['outcome'][0] == 'returned' and o['size_after'] == 0)
+                continue
+            if r.get('other_clients') != c['other_clients']:
                 continue
             for a, b in zip(r['proxy'], r['local']):
                 print(a, '| local:', b)
